@@ -9,7 +9,7 @@ namespace Reflect
 
 def operandsLt (n : Nat) : Op → Prop
   | .const _ => True
-  | .add a b | .sub a b | .mul a b | .orr a b | .mulHi a b | .mulLo a b _ => a < n ∧ b < n
+  | .add a b | .addA a b | .sub a b | .mul a b | .orr a b | .mulHi a b | .mulLo a b _ => a < n ∧ b < n
   | .shl a _ _ | .shr a _ | .low a _ _ => a < n
   | .carry a b c | .add64 a b c _ | .borrow a b c | .sub64 a b c _ => a < n ∧ b < n ∧ c < n
 
@@ -38,16 +38,17 @@ theorem arun_sound (signed : Bool) (ρ : Nat → Int) :
       EnvOK ρ env n →
       (∀ i, i < n → cget tr n i = ρ i) →
       (∀ i, i < n + ops.length → cget (exec false signed ops tr n) (n + ops.length) i = ρ i) →
+      (∀ a b, (a, b) ∈ sideOps ops → ρ a + ρ b ≤ maxV signed) →
       arun signed ops env n = some env' →
       exec true signed ops tr n = exec false signed ops tr n ∧ EnvOK ρ env' (n + ops.length) := by
   intro ops
   induction ops with
   | nil =>
-    intro env tr n env' henv _ _ h
+    intro env tr n env' henv _ _ _ h
     simp only [arun] at h; cases h
     exact ⟨rfl, by simpa using henv⟩
   | cons op rest ih =>
-    intro env tr n env' henv htr hfin h
+    intro env tr n env' henv htr hfin hside h
     simp only [arun] at h
     split at h
     · next av hstep =>
@@ -58,7 +59,13 @@ theorem arun_sound (signed : Bool) (ρ : Nat → Int) :
         rw [exec_at] at this
         rw [← this]
         exact evalOp_congr false signed _ _ n op hop htr
-      obtain ⟨hs, hm⟩ := astep_sound signed ρ env n henv op av hstep hval
+      have hside0 : ∀ a b, op = .addA a b → ρ a + ρ b ≤ maxV signed := by
+        intro a b e; subst e; exact hside a b (by simp [sideOps])
+      have hsideR : ∀ a b, (a, b) ∈ sideOps rest → ρ a + ρ b ≤ maxV signed := by
+        intro a b hm
+        apply hside a b
+        cases op <;> simp [sideOps, hm]
+      obtain ⟨hs, hm⟩ := astep_sound signed ρ env n henv op av hstep hval hside0
       have hvI : evalOp false signed (cget tr n) op = ρ n := by
         rw [hval]; exact evalOp_congr false signed _ _ n op hop htr
       have hvM : evalOp true signed (cget tr n) op = ρ n := by
@@ -80,7 +87,7 @@ theorem arun_sound (signed : Bool) (ρ : Nat → Int) :
         simp only [exec, List.length_cons, hvI] at this
         rw [show n + (rest.length + 1) = n + 1 + rest.length by omega] at this
         exact this
-      obtain ⟨e1, e2⟩ := ih (av :: env) (ρ n :: tr) (n + 1) env' henv1 htr1 hfin1 h
+      obtain ⟨e1, e2⟩ := ih (av :: env) (ρ n :: tr) (n + 1) env' henv1 htr1 hfin1 hsideR h
       refine ⟨?_, ?_⟩
       · simp only [exec, hvI, hvM]; exact e1
       · simp only [List.length_cons]
@@ -216,21 +223,30 @@ theorem inputsOk_len (signed : Bool) : ∀ (los his : List Int), inputsOk signed
 def Prog.val (P : Prog) (ins : List Int) : Nat → Int :=
   cget (P.run false ins) (P.nIn + P.body.length)
 
+/-- the named side obligations of a program on a given input: none of the `addA` sums overflows -/
+def SideOK (P : Prog) (ins : List Int) : Prop :=
+  ∀ a b, (a, b) ∈ sideOps P.body → P.val ins a + P.val ins b ≤ maxV P.signed
+
+theorem sideOK_of_none (P : Prog) (ins : List Int) (h : sideOps P.body = []) : SideOK P ins := by
+  intro a b hm; rw [h] at hm; cases hm
+
 /-- what a successful check guarantees for one concrete input vector -/
 structure Guarantee (P : Prog) (cfg : Cfg) (ins : List Int) : Prop where
   /-- no wrap-around anywhere: the machine trace equals the ideal trace -/
   noOverflow : P.run true ins = P.run false ins
-  /-- outputs are within the claimed bounds -/
-  outBounds : ∀ k, k < P.outs.length →
-      cfg.outLo.getD k 0 ≤ P.val ins (P.outs.getD k 0) ∧ P.val ins (P.outs.getD k 0) ≤ cfg.outHi.getD k 0
-  /-- value congruence: Σ wₖ·outₖ ≡ spec(inputs)  (mod modulus) -/
+  /-- observed variables are within the claimed bounds -/
+  outBounds : ∀ k, k < cfg.obs.length →
+      cfg.outLo.getD k 0 ≤ P.val ins (cfg.obs.getD k 0) ∧ P.val ins (cfg.obs.getD k 0) ≤ cfg.outHi.getD k 0
+  /-- value congruence: Σ wₖ·obsₖ ≡ spec(inputs)  (mod modulus) -/
   value : cfg.modulus ∣
-      (weightedSum (P.val ins) P.outs cfg.weights - evalPoly (fun i => ins.getD i 0) cfg.spec)
+      (weightedSum (P.val ins) cfg.obs cfg.weights - evalPoly (fun i => ins.getD i 0) cfg.spec)
   /-- inputs are read back unchanged -/
   inputs : ∀ i, i < P.nIn → P.val ins i = ins.getD i 0
+  /-- every variable's abstract value (interval, divisibility, polynomial, provenance) is sound -/
+  env : ∀ env', absEnv P cfg = some env' → EnvOK (P.val ins) env' (P.nIn + P.body.length)
 
 theorem check_sound (P : Prog) (cfg : Cfg) (h : check P cfg = true) (ins : List Int)
-    (hlen : ins.length = P.nIn) (hw : inputsWithin cfg.inLo cfg.inHi ins) :
+    (hlen : ins.length = P.nIn) (hw : inputsWithin cfg.inLo cfg.inHi ins) (hside : SideOK P ins) :
     Guarantee P cfg ins := by
   unfold check at h
   simp only [Bool.and_eq_true, beq_iff_eq] at h
@@ -249,12 +265,45 @@ theorem check_sound (P : Prog) (cfg : Cfg) (h : check P cfg = true) (ins : List 
     have henv0 : EnvOK (P.val ins) (initEnv cfg.inLo cfg.inHi) P.nIn :=
       initEnv_ok (P.val ins) cfg.inLo cfg.inHi ins P.nIn hl hh hlen hw hρin
     obtain ⟨hM, henvF⟩ := arun_sound P.signed (P.val ins) P.body (initEnv cfg.inLo cfg.inHi) ins.reverse
-      P.nIn env' henv0 (fun i hi => by rw [htr0 i hi, hρin i hi]) (fun i _ => rfl) harun
-    obtain ⟨hoLt, hoB⟩ := outsOk_sound (P.val ins) env' _ henvF P.outs cfg.outLo cfg.outHi hout
-    refine ⟨hM, hoB, ?_, hρin⟩
-    have hw' := weighted_sound (P.val ins) env' _ henvF P.outs cfg.weights hoLt
-    have hd := allDiv_sound (P.val ins) cfg.modulus _ hdiv
-    rw [evalPoly_psub, hw', evalPoly_congr (P.val ins) (fun i => ins.getD i 0) P.nIn hρin cfg.spec hspec] at hd
-    exact hd
+      P.nIn env' henv0 (fun i hi => by rw [htr0 i hi, hρin i hi]) (fun i _ => rfl) hside harun
+    obtain ⟨hoLt, hoB⟩ := outsOk_sound (P.val ins) env' _ henvF cfg.obs cfg.outLo cfg.outHi hout
+    refine ⟨hM, hoB, ?_, hρin, ?_⟩
+    · have hw' := weighted_sound (P.val ins) env' _ henvF cfg.obs cfg.weights hoLt
+      have hd := allDiv_sound (P.val ins) cfg.modulus _ hdiv
+      rw [evalPoly_psub, hw', evalPoly_congr (P.val ins) (fun i => ins.getD i 0) P.nIn hρin cfg.spec hspec] at hd
+      exact hd
+    · intro env'' he
+      unfold absEnv at he
+      rw [harun] at he; cases he; exact henvF
+
+/-- a program cut after `k` ops computes the same values for the variables it still has -/
+theorem val_take (P : Prog) (ins : List Int) (hlen : ins.length = P.nIn) (k i : Nat) (hk : k ≤ P.body.length)
+    (hi : i < P.nIn + k) : (P.take k).val ins i = P.val ins i := by
+  have hsplit : P.body = P.body.take k ++ P.body.drop k := (List.take_append_drop k P.body).symm
+  have hexec : ∀ (pre post : List Op) (tr : List Int) (n : Nat),
+      exec false P.signed (pre ++ post) tr n = exec false P.signed post (exec false P.signed pre tr n) (n + pre.length) := by
+    intro pre
+    induction pre with
+    | nil => intro post tr n; rfl
+    | cons op pre ih =>
+      intro post tr n
+      simp only [List.cons_append, exec, List.length_cons]
+      rw [ih post _ (n + 1)]; congr 1; omega
+  have hlenexec : ∀ (ops : List Op) (tr : List Int) (n : Nat),
+      (exec false P.signed ops tr n).length = tr.length + ops.length := by
+    intro ops
+    induction ops with
+    | nil => intro tr n; rfl
+    | cons op ops ih => intro tr n; simp only [exec, List.length_cons]; rw [ih]; simp; omega
+  unfold Prog.val Prog.run Prog.take
+  simp only
+  have hl : (P.body.take k).length = k := by simp [hk]
+  conv_rhs => rw [hsplit, hexec]
+  rw [hl]
+  have := exec_suffix false P.signed (P.body.drop k)
+    (exec false P.signed (P.body.take k) ins.reverse P.nIn) (P.nIn + k) i hi
+  rw [show P.nIn + (List.take k P.body ++ List.drop k P.body).length = P.nIn + k + (P.body.drop k).length by
+    simp; omega]
+  rw [this]
 
 end Reflect
